@@ -77,6 +77,13 @@ def compound_items() -> list[Any]:
     out.append(lambda: Repeat1(acted("R", leaf(A), leaf(B))))
     out.append(lambda: Opt(acted("S", leaf(B))))
     out.append(lambda: seq(leaf(A), Opt(leaf(B)), leaf("NAME")))
+    # groups WITHOUT an action of their own around an optional / a group that has one: they print alike (str) and differ (repr)
+    out.append(lambda: seq(Opt(acted("P", leaf(B))), leaf(A)))
+    out.append(lambda: seq(Opt(acted("Q", leaf(B))), leaf(A)))
+    out.append(lambda: seq(leaf(A), acted("P", leaf("NAME"))))
+    out.append(lambda: seq(leaf(A), acted("Q", leaf("NAME"))))
+    out.append(lambda: choice(acted("P", leaf(A), leaf(B)), leaf(A)))
+    out.append(lambda: choice(acted("Q", leaf(A), leaf(B)), leaf(A)))
     out.append(lambda: choice(seq(leaf(A), leaf(B)), leaf(A)))
     out.append(lambda: choice(leaf(A), seq(leaf(A), leaf(B))))
     out.append(lambda: Group(Rhs([Alt([NamedItem(None, leaf(A)), NamedItem(None, Cut()), NamedItem(None, leaf(B))]), Alt([NamedItem(None, leaf(A))])])))
@@ -140,6 +147,8 @@ def units(tier: str) -> list[tuple]:
             us.append(("gram", "three", i, tier))
     for i in range(len(leftrec_shapes())):
         us.append(("gram", "leftrec", i, tier))
+    for i in range(len(invalid_shapes())):
+        us.append(("gram", "invalid", i, tier))
     return us
 
 
@@ -177,6 +186,10 @@ def expand(unit: tuple) -> Iterator[tuple[dict, Grammar]]:
         name, build = leftrec_shapes()[i]
         for variant, g in build():
             yield {"fam": fam, "shape": name, "variant": variant}, g
+    elif fam == "invalid":
+        name, build = invalid_shapes()[i]
+        for variant, g in build():
+            yield {"fam": fam, "shape": name, "variant": variant}, g
 
 
 def rebuild(desc: dict, tier: str = "thorough") -> Grammar:
@@ -184,8 +197,8 @@ def rebuild(desc: dict, tier: str = "thorough") -> Grammar:
     S, C = simple_items(), compound_items()
     I = S + C
     fam = desc["fam"]
-    if fam == "leftrec":
-        for name, build in leftrec_shapes():
+    if fam in ("leftrec", "invalid"):
+        for name, build in (leftrec_shapes() if fam == "leftrec" else invalid_shapes()):
             if name == desc["shape"]:
                 for variant, g in build():
                     if variant == desc["variant"]:
@@ -251,6 +264,54 @@ def leftrec_shapes() -> list[tuple[str, Any]]:
                 [R("r", [[leaf("r"), leaf(A)], [leaf("m"), f()], [leaf(B)]]), R("m", [[leaf("r"), leaf("NAME")]]), AUX["lit"](), start()], [])
 
     return [("direct", direct), ("mutual", mutual), ("nested", nested)]
+
+
+def invalid_shapes() -> list[tuple[str, Any]]:
+    """pegen's diagnostic convention: an alternative that refers to a rule named invalid_* is tried only while the
+    parser's call_invalid_rules flag is set, and a rule named *_without_invalid clears the flag for its own duration.
+    Shapes that take the generator's inlining shortcuts (single-item alternatives) next to shapes that do not."""
+    S = simple_items()
+
+    def R(name: str, alts: list[list[Any]], acts: list[str | None] | None = None) -> Rule:
+        ra = []
+        for k, items in enumerate(alts):
+            act = acts[k] if acts else None
+            if act:
+                named = [NamedItem(None if isinstance(it, (Cut, PositiveLookahead, NegativeLookahead, Forced)) else f"n{j}", it) for j, it in enumerate(items)]
+                ra.append(Alt(named, action="(" + repr(act) + ", " + ", ".join(n.name for n in named if n.name) + ")"))
+            else:
+                ra.append(Alt([NamedItem(None, it) for it in items]))
+        return Rule(name, None, Rhs(ra))
+
+    def start() -> Rule:
+        return Rule("start", None, Rhs([Alt([NamedItem(None, leaf("r")), NamedItem(None, leaf("NEWLINE")), NamedItem(None, leaf("ENDMARKER"))])]))
+
+    def inv(body: str = "ba") -> Rule:
+        items = {"ba": [leaf(B), leaf(A)], "b": [leaf(B)], "name": [leaf("NAME"), leaf(A)]}[body]
+        return R("invalid_x", [items], acts=["INV"])
+
+    def plain():
+        for k, f in enumerate(S):
+            for body in ("ba", "b", "name"):
+                # single-item alternatives (inlined), the invalid_ rule first / last; with a second item; with an action
+                yield f"{k}:{body}:first", Grammar([R("r", [[leaf("invalid_x")], [f()]]), inv(body), AUX["lit"](), start()], [])
+                yield f"{k}:{body}:last", Grammar([R("r", [[f()], [leaf("invalid_x")]]), inv(body), AUX["lit"](), start()], [])
+                yield f"{k}:{body}:mid", Grammar([R("r", [[leaf(A)], [leaf("invalid_x")], [f()]]), inv(body), AUX["lit"](), start()], [])
+                yield f"{k}:{body}:two", Grammar([R("r", [[f(), leaf("invalid_x")], [leaf(B)]]), inv(body), AUX["lit"](), start()], [])
+                yield f"{k}:{body}:act", Grammar([R("r", [[leaf("invalid_x")], [f()]], acts=["A0", None]), inv(body), AUX["lit"](), start()], [])
+                yield f"{k}:{body}:group", Grammar([R("r", [[Group(Rhs([Alt([NamedItem(None, leaf("invalid_x"))]), Alt([NamedItem(None, f())])]))], [leaf(B)]]), inv(body), AUX["lit"](), start()], [])
+
+    def without():
+        for k, f in enumerate(S):
+            # a *_without_invalid rule whose alternatives are single items (inlined) and one that is not, used before other rules
+            yield f"{k}:inl", Grammar([R("r", [[leaf("w_without_invalid")], [leaf("invalid_x")], [f()]]), R("w_without_invalid", [[leaf(A)], [leaf("NAME")]]),
+                                       inv("b"), R("z", [[leaf(B), f()]]), AUX["lit"](), start()], [])
+            yield f"{k}:inv", Grammar([R("r", [[leaf("w_without_invalid"), leaf(B)], [leaf("invalid_x")], [f()]]),
+                                       R("w_without_invalid", [[leaf("invalid_x")], [leaf(A)]]), inv("b"), AUX["lit"](), start()], [])
+            yield f"{k}:seq", Grammar([R("r", [[leaf("w_without_invalid")], [leaf("invalid_x"), f()]], acts=[None, "A1"]),
+                                       R("w_without_invalid", [[leaf(A), leaf("invalid_x")], [leaf(A)]], acts=["W0", None]), inv("b"), AUX["lit"](), start()], [])
+
+    return [("plain", plain), ("without", without)]
 
 
 # ------------------------------------------------------------------ rendering to grammar text
